@@ -33,15 +33,36 @@ INVALID = [
     "subroutine {u}\n  integer :: sin\n  a = (/ 1,,2 /)\nend subroutine {u}\n",
     "module mm\ncontains\nsubroutine {u}\n  integer :: cos\n  x = (1\nend subroutine {u}\nend module mm\n",
 ]
+# unit wrappers x failure bodies (soft no-match, exception raised inside a sub-rule, name mismatch);
+# (text, the failing top-level unit carries the name {u})
+WRAP = [
+    ("program {u}\n{B}end program {u}\n", True),
+    ("subroutine {u}\n{B}end subroutine {u}\n", True),
+    ("function {u}()\n{B}end function {u}\n", True),
+    ("{B}end\n", True),
+    ("program {u}\ncontains\nsubroutine s\n{B}end subroutine s\nend program {u}\n", True),
+    ("module mm\ncontains\nfunction {u}()\n{B}end function {u}\nend module mm\n", False),
+    ("x = 1\ncontains\nsubroutine {u}\n{B}end subroutine {u}\nend\n", False),
+]
+BODY = ["  x = sin(1.0, 2.0)\n", "  do i = 1, 2\n  x = 1\n  end do nm\n", "  integer :: k\n  k = = 1\n", "  integer :: k\n  if (k) then\n  k = 1\n  end if nm\n"]
+NOLD = len(INVALID)
+TOPSAME = {}
+for _w, _t in WRAP:
+    for _b in BODY:
+        TOPSAME["i%d" % len(INVALID)] = _t
+        INVALID.append(_w.replace("{B}", _b))
+CORE = ["c3", "c8"] + ["v%d" % i for i in range(len(VALID))] + ["i%d" % i for i in range(NOLD)]
+NEW = ["i%d" % i for i in range(NOLD, len(INVALID))]
 OPS = ["c3", "c8"] + ["v%d" % i for i in range(len(VALID))] + ["i%d" % i for i in range(len(INVALID))]
 
 
 def units(tier):
     q = tier == "quick"
     us = []
-    hs = [[a] for a in OPS] + [[a, b] for a in OPS for b in OPS]
+    hs = [[a] for a in OPS] + [[a, b] for a in CORE for b in CORE] + [[a, b] for a in ("c8", "v0", "v2") for b in NEW] + [[b, a] for a in ("c8", "v0") for b in NEW]
     if not q:
-        hs += [[a, b, c] for a in OPS for b in OPS for c in OPS if (a[0] == "i" or b[0] == "i" or c[0] == "i")]
+        hs += [[a, b, c] for a in CORE for b in CORE for c in CORE if (a[0] == "i" or b[0] == "i" or c[0] == "i")]
+        hs += [[a, b] for a in NEW for b in NEW]
     k = 0
     for h in hs:
         for fin in range(len(VALID)):
@@ -147,7 +168,7 @@ def history(ctx):
                 missing = [b for b in before if not api.disj([a == b for a in after if len(a) == len(b)])]
                 multi = " [units in front of the faulty unit of a multi-unit source]" if op == "i4" else ""
                 ctx.check(len(extra) == 0, "a failed parse leaves symbol tables of its own behind [%s ends in %s]%s" % (op, r[0], multi))
-                toplevel_same = op in ("i0", "i1", "i2", "i4", "i5") or op[0] == "v"
+                toplevel_same = op in ("i0", "i1", "i2", "i4", "i5") or op[0] == "v" or TOPSAME.get(op, False)
                 ctx.check(len(missing) == 0, "a failed parse removes a symbol table that existed before it" +
                           (" [unit name equal to that of an earlier parse]" if toplevel_same else " [only a nested unit shares the name]"))
                 # bring the state back so that later steps are judged on their own
